@@ -12,7 +12,7 @@ from ..pyvc.core import Contract, Exit, LoopSpec, Z, Conc, TupV, ObjV
 from ..pyvc.objtheory import strlen, strcat, lit, sval, S
 from ..pyvc import lextheory as T
 from ..pyvc.lextheory import (set_has, map_has, map_get, map_hasval, pairs_has, pairs_len, sub_in, charat,
-                              re_match, allowed, tok_numeric, tok_datetime, lower, tid, rec_eq)
+                              re_match, allowed, tok_numeric, tok_datetime, lower, tid, rec_eq, only_c)
 
 P = None
 
@@ -104,9 +104,29 @@ class Step:
                      z3.If(set_has(mc, self.char), self.multi_step(mp, prev, nxt), self.single_step(sc)))
 
 
-def multi_errors(pid):
-    return [Exit("ValueError", when=lambda pre, a: pairs_len(pid(a)) == 0),
-            Exit("NotImplementedError", when=lambda pre, a: pairs_len(pid(a)) > 0)]
+def continue_spec(char, n, lexeme, tokt, preserve):
+    """lex_continue: there is an allowed next character and (a preserve state is open or a look-ahead exception applies)"""
+    nn, nv = n.info["none"], n.info["val"]
+    st = preserve.info["state"]
+    nsc = tid("g.numeric_start_chars")
+    pre_re = tid("g.nondecimal_pre_re")
+    look = z3.Or(
+        st != pv("FALSE"),
+        z3.And(set_has(nsc, char), tok_numeric(strcat(char, nv))),                       # a sign starting a number
+        re_match(pre_re, strcat(lexeme, nv)),                                             # based-integer prefix
+        z3.And(lower(char) == lit("e"), set_has(nsc, nv),
+               tok_numeric(strcat(strcat(lexeme, nv), lit("2")))),                       # exponent sign
+        z3.And(set_has(nsc, nv), tok_datetime(tokt)))                                     # zone offset
+    return z3.And(z3.Not(nn), allowed(nv), look)
+
+
+def multi_errors(pid, only_for_multi_chars=False):
+    def empty(pre, a):
+        if only_for_multi_chars:      # lex_comment / lex_char reach lex_multichar_comments only for a multi-comment character
+            return z3.And(pairs_len(pid(a)) == 0, set_has(tid("c_info.multi_chars"), sv(a["char"])))
+        return pairs_len(pid(a)) == 0
+    return [Exit("ValueError", when=empty),
+            Exit("NotImplementedError", when=lambda pre, a: z3.And(pairs_len(pid(a)) > 0, z3.Not(only_c(pid(a)))))]
 
 
 def contracts():
@@ -150,7 +170,7 @@ def contracts():
             ("spec", Step(a, r).comment_step(a["prev_char"], a["next_char"])),
             ("inside a single-character comment the multi-character delimiters are text",
              z3.Implies(Step(a, r).in_single_comment(tid("c_info.single_comments")), Step(a, r).preserve_step())),
-        ])] + multi_errors(mp), props=("C04",)))
+        ])] + multi_errors(mp, True), props=("C04",)))
 
     def lex_char_post(pre, post, a, r):
         s = Step(a, r)
@@ -185,11 +205,18 @@ def contracts():
     out.append(Contract("pvl.lexer.lex_char", params=dict(cparams, g="grammar"), requires=req_char, exits=[
         Exit("return", res="lexstep", when=lambda pre, a: known(a["preserve"].info["state"]), post=lex_char_post),
         Exit("ValueError", when=lambda pre, a: z3.Or(z3.Not(known(a["preserve"].info["state"])),
-                                                     pairs_len(tid("c_info.multi_comments")) == 0)),
-        Exit("NotImplementedError", when=lambda pre, a: pairs_len(tid("c_info.multi_comments")) > 0),
+                                                     z3.And(pairs_len(tid("c_info.multi_comments")) == 0,
+                                                            set_has(tid("c_info.multi_chars"), sv(a["char"]))))),
+        Exit("NotImplementedError", when=lambda pre, a: z3.And(pairs_len(tid("c_info.multi_comments")) > 0,
+                                                               z3.Not(only_c(tid("c_info.multi_comments"))))),
     ], props=("C04", "C03")))
 
     def cont_post(pre, post, a, r):
+        return [("continues exactly when there is an allowed next character and (a preserve state is open or one of "
+                 "the look-ahead exceptions applies)",
+                 r.t == continue_spec(sv(a["char"]), a["next_char"], sv(a["lexeme"]), a["token"].info["text"], a["preserve"]))]
+
+    def _unused(pre, post, a, r):
         char, lexeme = sv(a["char"]), sv(a["lexeme"])
         n = a["next_char"]
         nn, nv = n.info["none"], n.info["val"]
@@ -232,3 +259,74 @@ def contracts():
                         requires=lambda pre, a: [("idx-not-negative", a["idx"].t >= 0)],
                         exits=[Exit("return", res="optchar", post=next_post)], props=("C04",)))
     return out
+
+
+def loop_contracts():
+    """one-iteration contract of the main loop of pvl.lexer.lexer (C09, C04, C03, C15): what one character does to the
+    accumulated lexeme and when a token is yielded"""
+    from ..pyvc.core import LoopSpec, ObjV, Conc, Z
+    from ..pyvc.lextheory import tok_is
+    from . import exceptions as cx
+    helpers = contracts()
+    for c in helpers:
+        c.assumed = True
+        c.note = "discharged in the same section (lexer-helper-contracts)"
+    fp = [c for c in cx.contracts() if c.target.endswith(".firstpos")]
+    for c in fp:
+        c.assumed = True
+        c.note = "discharged in check C15"
+    pct = Contract("pvl.lexer._prepare_comment_tuples", params={"comments": "pairs"}, exits=[
+        Exit("return", res=lambda ex: ObjV("cinfo"))])
+    pct.assumed = True
+    pct.note = "builds the c_info tables (arbitrary tables in T_lex); bounded drivers"
+
+    def step(ex, before, after, yields, action):
+        ws, rc = tid("g.whitespace"), tid("g.reserved_characters")
+        out = [("at most one token per character", z3.BoolVal(len(yields) <= 1))]
+        yielded = len(yields) == 1
+        nxt = after.get("next_char")
+        if nxt is None or not (isinstance(nxt, ObjV) and nxt.role == "optstr"):
+            return out                     # the character was refused before the step (LexerError path ends elsewhere)
+        char = sval(after["char"])
+        if yielded:
+            tok = yields[0]
+            out.append(("what is yielded is a Token", z3.BoolVal(isinstance(tok, ObjV) and tok.role == "token")))
+            if not (isinstance(tok, ObjV) and tok.role == "token"):
+                return out
+            L1 = tok.info["text"]
+            out.append(("after a yield the accumulation restarts with an empty lexeme",
+                        z3.BoolVal(isinstance(after["lexeme"], Conc) and after["lexeme"].v == "")))
+        else:
+            L1 = sval(after["lexeme"])
+        P1 = after["preserve"]
+        nn, nv = nxt.info["none"], nxt.info["val"]
+        empty = L1 == lit("")
+        cont = continue_spec(char, nxt, L1, L1, P1)
+        y = z3.BoolVal(yielded)
+        ready = z3.And(z3.Not(empty), z3.Not(cont))
+        out += [
+            ("white space alone yields nothing; a look-ahead exception or an open quote / comment / units keeps accumulating",
+             z3.Implies(y, ready)),
+            ("the end of the text flushes the accumulated lexeme", z3.Implies(z3.And(z3.Not(empty), nn), y)),
+            ("a next character the grammar does not allow ends the lexeme before it (nothing after END is looked at)",
+             z3.Implies(z3.And(ready, z3.Not(nn), z3.Not(allowed(nv))), y)),
+            ("white space after a lexeme ends it", z3.Implies(z3.And(ready, z3.Not(nn), set_has(ws, nv)), y)),
+            ("a reserved character after a lexeme ends it", z3.Implies(z3.And(ready, z3.Not(nn), set_has(rc, nv)), y)),
+            ("a reserved character is a lexeme of its own", z3.Implies(z3.And(ready, set_has(rc, L1)), y)),
+        ]
+        return out
+    def known(st):
+        return z3.Or(*[st == pv(n) for n in ("FALSE", "COMMENT", "UNIT", "QUOTE", "NONDECIMAL")])
+    MP, MC = tid("c_info.multi_comments"), tid("c_info.multi_chars")
+    cc = z3.Const("any_char", S)
+
+    def req(pre, a):
+        return [("the grammar's multi-character comments are the supported pair only (true of the five grammars: ground obligation)", only_c(MP)),
+                ("c_info as built by _prepare_comment_tuples: a multi-comment character implies a multi-comment pair",
+                 z3.ForAll([cc], z3.Implies(set_has(MC, cc), pairs_len(MP) > 0), patterns=[set_has(MC, cc)]))]
+    inv = lambda env, st, i: [("the preserve state is one of the five Preserve values", known(env["preserve"].info["state"]))]   # noqa: E731
+    c = Contract("pvl.lexer.lexer", params={"s": "str", "g": "grammar", "d": "opaque"}, requires=req,
+                 loops={0: LoopSpec(step=step, inv=inv), 1: LoopSpec()},
+                 exits=[Exit("return"), Exit("LexerError")], props=("C09", "C04", "C03", "C15"))
+    c.generator_body = True
+    return helpers + fp + [pct, c]
